@@ -61,6 +61,7 @@ def documents(tier='quick'):
     docs.append(('para-comments', '2000-01-01 *\n    ; p1\n    ;\n    ; p2\n    Assets:Foo  1 USD\n    ; q1\n    ;\n    ; q2\n    Assets:Bar\n'))
     docs.append(('glued', '2000-01-01 open Assets:Foo USD;c\n2000-01-02 * "p""n"\n    Assets:Foo  10USD;pc\n    Assets:Bar  -10USD{1.5 EUR}@ 2 EUR\n2000-01-03 close Assets:Foo;bye\n2000-01-04 balance Assets:Foo 10~0.01 USD\n'))
     docs.append(('products', '2000-01-01 *\n    Assets:A   6 * 2 / 3 USD\n    Assets:B   1 / 2 / 5 USD @ 2 * 3 * 4 EUR\n    Assets:C   -(1 + 2) * 3 / -4 - 5 * 6 + 7 USD\n    Assets:D\n'))
+    docs.append(('empty-strings', '2000-01-01 * "" "Lunch"\n    Assets:Foo  1 USD\n    Assets:Bar\n2000-01-02 * "Cafe" ""\n    Assets:Foo  1 USD {0 EUR, ""}\n    Assets:Bar\n2000-01-03 note Assets:Foo ""\n2000-01-04 custom "" "" FALSE 0\n2000-01-05 open Assets:Foo USD ""\n'))
     docs.append(('org-headings', '* Heading\n** Sub\n2000-01-01 open Assets:Foo\n'))
     return docs
 
